@@ -226,12 +226,14 @@ class Session:
         self.level, self.fsname, self.seed = level, fsname, seed
         self.rng = random.Random(seed)
         base = (("HH", "F1", 4, 3), ("HH", "F2", 3, 2)) if level == "1.1" else (("HH", None, 4, 3), ("HV", None, 3, 2))
+        if seed % 8 == 5:  # longer images: per-line columns long enough for an index to "compress" them (ramps, plateaus)
+            base = tuple((pol, sc, n * 5, p) for pol, sc, n, p in base)
         self.built = {}
         for li, l in enumerate(locs):
             for v in versions:
                 imgs = tuple((pol, sc, n + (v if i == 0 else 0), p) for i, (pol, sc, n, p) in enumerate(base))
                 self.built[f"{l}{v}"] = product.build_product(level=level, images=imgs, seed=seed * 16 + li * 4 + v + 1,
-                                                           ctx={"creation_datetime": f"20200301120{li}{v}000"}, drift=bool(seed % 2))
+                                                           ctx={"creation_datetime": f"20200301120{li}{v}000"}, drift=(0, 1, 2, 3, 4)[seed % 5])
         b0 = self.built[f"{locs[0]}{versions[0]}"]
         self.img = {"a": 0, "b": 1}
         self.names = {m: b0.images[i]["name"] for m, i in self.img.items()}
